@@ -256,6 +256,11 @@ INTERLEAVINGS = [
     ((2, 0), (2, 1), (1, 0), (1, 1), (0, 0), (0, 1)),
     ((0, 0), (1, 0), (1, 1), (2, 0), (0, 1), (2, 1)),
     ((1, 0), (1, 1), (0, 0), (2, 0), (2, 1), (0, 1)),
+    # bursts: several chunk writes arrive in ONE event-loop iteration ('y' = the loop runs its callbacks; above: after every write).
+    # A loser can thus have finished on its own (corrupt / over-long copy refused) before the winner's completion callback runs.
+    ((0, 0), (1, 0), (2, 0), 'y', (1, 1), (0, 1), (2, 1), 'y'),
+    ((0, 0), (1, 0), (2, 0), 'y', (0, 1), (1, 1), (2, 1), 'y'),
+    ((1, 0), (1, 1), (2, 0), (2, 1), (0, 0), (0, 1), 'y'),
 ]
 
 
@@ -266,12 +271,18 @@ async def blob_scenario(make_blob, good1, good2, bad1, bad2, trunc, excess, orde
     writers = [blob.get_blob_writer('1.1.1.1', 1), blob.get_blob_writer('2.2.2.2', 2), blob.get_blob_writer('3.3.3.3', 3)]
     chunks = [(good1, good2), (bad1, bad2), (trunc, excess)]
     refused = 0
-    for (wi, ci) in order:
+    explicit = 'y' in order
+    for step in order:
+        if step == 'y':
+            await asyncio.sleep(0)
+            continue
+        wi, ci = step
         try:
             writers[wi].write(chunks[wi][ci])
         except OSError:
             refused += 1
-        await asyncio.sleep(0)
+        if not explicit:
+            await asyncio.sleep(0)
     await asyncio.sleep(0)
     await asyncio.sleep(0)
     return blob, writers, done, good
@@ -306,10 +317,12 @@ def make_concurrent_proof(k):
         return ok
 
     def ensures_every_writer_shut_down(result):
-        # exactly one writer (the first to deliver a complete correct copy) holds the result; nobody is left pending
+        # a writer that delivered a complete correct copy holds a result (two can, when both complete within one event-loop
+        # iteration: the statement shuts down PENDING writers; the stored bytes are checked against every such writer by the clause
+        # above); the corrupted copy never does; nobody is left pending or registered
         verified, stored, closed, states, nwriters, calls, good, delivered = result
         winners = (1 if states[0] == 'result' else 0) + (1 if states[1] == 'result' else 0) + (1 if states[2] == 'result' else 0)
-        return closed == [True, True, True] and nwriters == 0 and winners == 1 and states[1] != 'result' \
+        return closed == [True, True, True] and nwriters == 0 and winners >= 1 and states[1] != 'result' \
             and 'pending' not in states
 
     def ensures_completion_announced_once(result):
@@ -329,6 +342,8 @@ def make_concurrent_proof(k):
                 note="3 writers (correct copy in 2 chunks, corrupted copy of the same length, truncated + excess) in this interleaving",
                 __doc__=f"three concurrent writers on one in-memory blob, chunk writes interleaved as {order}: the blob is verified with "
                         f"exactly the correct bytes, every other writer is shut down, completion is announced once")
+    body['thorough_only'] = (k == 7)         # the single-burst interleaving has the longest path conditions: thorough tier
+    body['timeout'] = 30 if k >= 5 else None
     proof("C01", f"concurrent[{k}]")(type('Concurrent', (), body))
 
 
@@ -340,7 +355,7 @@ for _k in range(len(INTERLEAVINGS)):
 class NeverVerified:
     """if no writer delivers a complete correct copy (all are corrupted, truncated or over-long) the blob never becomes verified
     and nothing is stored"""
-    inputs = dict(content_hash=TBytes(), length=L_T, a1=TBytes(), a2=TBytes(), b1=TBytes())
+    inputs = dict(content_hash=TBytes(), length=L_T, a1=TBytes(), a2=TBytes(), b1=TBytes(), mine=TBool())
 
     def requires(content_hash, length, a1, a2, b1):
         # at no write boundary has any writer delivered exactly `length` bytes hashing to the blob's name
@@ -349,9 +364,11 @@ class NeverVerified:
                (len(a1) + len(a2) != length or sha384_hex(a1 + a2) != want) and \
                (len(b1) != length or sha384_hex(b1) != want)
 
-    async def run(content_hash, length, a1, a2, b1):
+    async def run(content_hash, length, a1, a2, b1, mine):
         done = Completed()
-        blob = BlobBuffer(asyncio.get_event_loop(), sha384_hex(content_hash), length, done)
+        # (`mine`: the blob object may be one the user published earlier whose local copy was lost - what arrives from the network
+        # is checked all the same)
+        blob = BlobBuffer(asyncio.get_event_loop(), sha384_hex(content_hash), length, done, None, None, mine)
         wa, wb = blob.get_blob_writer('1.1.1.1', 1), blob.get_blob_writer('2.2.2.2', 2)
         for w, chunk in ((wa, a1), (wb, b1), (wa, a2)):
             try:
@@ -366,8 +383,9 @@ class NeverVerified:
         return not result[0] and result[1] and result[2] == 0 and result[3] != 'result' and result[4] != 'result'
 
     def samples():
-        for a1, a2, b1 in ((b'ab', b'c', b'abd'), (b'abc', b'd', b'ab'), (b'', b'', b'abcd'), (b'xyz', b'', b'')):
-            yield dict(content_hash=b'abc', length=3, a1=a1, a2=a2, b1=b1)
+        for mine in (False, True):
+            for a1, a2, b1 in ((b'ab', b'c', b'abd'), (b'abc', b'd', b'ab'), (b'', b'', b'abcd'), (b'xyz', b'', b'')):
+                yield dict(content_hash=b'abc', length=3, a1=a1, a2=a2, b1=b1, mine=mine)
 
 
 @proof("C01", "set_length")
